@@ -9,4 +9,5 @@ Extraction "model.ml" bint_zero bint_one fromuinteger frominteger touinteger toi
   tobase frombase bn_from_bin bn_from_hex bn_from_dec tohexint tobinint todecint
   tobint bnew fromstring bint_tonumber madd msub mmul mlt mle meq btrunc bfloor bceil
   bfromle bfrombe btole btobe todecsci_int demotefloat canbeintegral
+  lua_tonumber_base lua_tostring_int lua_format_x BINT_WORDBITS
   BINT_SIZE uval sval.
